@@ -15,7 +15,15 @@ SmallContents ==
             : ks \in { SetToSortSeq(S, Lex) : S \in { X \in SUBSET Universe : Cardinality(X) <= 2 } } }
 \* directed: fan-outs where version 1 has no index and versions 2-3 have one; pack boundaries
 Wide(nt, tail, val(_)) == [i \in 1..nt |-> << <<i - 1 + (256 - nt)>> \o tail, val(i) >>]
+\* every byte value as the input of a one-transition node: the 63 common-input codes and
+\* the explicitly stored bytes (chains use the OneTransNext form; with outputs OneTrans)
+CommonKey == [i \in 1..63 |-> CommonInv[i]]
+AllBytesKey == [i \in 1..256 |-> i - 1]
 Directed == {
+    << <<CommonKey, <<5>>>> >>,
+    << <<AllBytesKey, UZero>> >>,
+    << <<Rev(CommonKey), <<0, 1>>>>, <<CommonKey, <<5>>>>, <<CommonKey \o <<113, 72>>, <<1>>>> >>,
+    << <<<<72>>, <<9>>>>, <<<<72, 113>>, <<3>>>>, <<<<113, 72, 113>>, <<300 % 256, 1>>>> >>,
     Wide(31, <<>>, LAMBDA i : UFromNat(i)),
     Wide(32, <<>>, LAMBDA i : UFromNat(i + 250)),
     Wide(32, <<7>>, LAMBDA i : UZero),
